@@ -143,7 +143,7 @@ class Unit:
             st.ghost["illegal_writes"] = []
             arr = []
             # by default the parameters that the library documents as "scalar or vector" are array-capable
-            for nm in (self.arrays or ["wavelength", "energy", "Q", "q", "stol"]):
+            for nm in (self.arrays or ["wavelength", "energy", "Q", "q", "stol", "rest_times", "weights"]):
                 if isinstance(nm, int) and nm < len(args):
                     arr.append(("#%d" % nm, args[nm]))
                 elif nm in kwargs:
